@@ -136,6 +136,10 @@ func C16(c *core.Ctx) {
 			return fam.RelRename(fa, fb, "without", "with --capitalization ID,URL")
 		})
 	}
+	// --capitalization changes identifiers ONLY: whatever the user's capitalizations (also ones that start lower-case: iOS, gRPC), every
+	// name still becomes a valid EXPORTED identifier — an unexported field is skipped by the decoders, i.e. the option would change
+	// which documents are accepted (A-IDENT, shared with C14)
+	ruleIdent(c)
 	c.Floor("pairs", c.Counts["pairs"], 800, "option pairs related")
 	// naming options with several files: every root keeps the name ITS OWN title / mapping gives it
 	ruleMultiSel(c, ruleSet("A-ROUTE", "A-TYP", "A-MAP"), 4, "names from titles", "--schema-root-type")
